@@ -189,6 +189,8 @@ def forms_work(args):
                 make1 = lambda: Plane(*[float(c) for c in n2], float(d2))
             else:
                 pts = [tuple(F(R.randint(-12, 12), 4) for _ in range(3)) for _ in range(3)]
+                while pts[1] == pts[0]:
+                    pts[1] = tuple(F(R.randint(-12, 12), 4) for _ in range(3))
                 if E.is0(E.cross(E.sub(pts[1], pts[0]), E.sub(pts[2], pts[0]))):
                     pts[2] = E.add(pts[2], (F(1), F(2), F(-3)))
                     if E.is0(E.cross(E.sub(pts[1], pts[0]), E.sub(pts[2], pts[0]))):
@@ -315,6 +317,9 @@ def run(ctx, scale=1):
         pr = []
         if 'exc' in r:
             pr.append('harness: ' + r['exc'])
+        elif r['o0'][0] != 'ok' and r['o1'][0] != 'ok' and r['o0'][1] == r['o1'][1]:
+            ctx.stats['constructor form rejected before and after the transformation alike'] += 1
+            continue
         elif r['o0'][0] != 'ok':
             pr.append('raises on the base arguments: %s' % (r['o0'][1:],))
         elif r['o1'][0] != 'ok':
@@ -362,6 +367,9 @@ def replay(ctx, case):
         print('base       :', o0)
         print('transformed:', o1)
         ok = o0[0] == 'ok' and o1[0] == 'ok'
+        if o0[0] != 'ok' and o1[0] != 'ok' and o0[1] == o1[1]:
+            print('AGREE (rejected before and after the transformation alike)')
+            return 0
         if ok:
             d0 = impl.describe(o0[1])
             want = impl.build(tobj(T, (d0[0],) + tuple(tuple(F(x) for x in part) for part in d0[1:])))
